@@ -243,7 +243,10 @@ def _diag(
         rd = bd_conf["graph"]["rankdir"]
         if rd == "TB" or rd == "BT":
             gconf["label"] = "{" + gconf["label"] + "}"
-        graph.add_node(pydot.Node("Scale", **gconf))
+        sname = "Scale"
+        while sname in sys._g.attrs["nodes"]:
+            sname += "_"
+        graph.add_node(pydot.Node(_q(sname), **gconf))
     # edges
     p = dict(zip(sys._g.attrs["nodes"].values(), sys._g.attrs["nodes"].keys()))
     for e in iter(sys._g.edge_indices()):
